@@ -20,6 +20,7 @@ RULE = ("Datasets of N=4..24 (quick) / ..48 (thorough) rows in the metric's doma
         "predictions must be equal with ==; get_distances() must equal the metric on every ordered pair (and its min-max rescaling); then the routine rewrites the same path for another "
         "dataset of the same shape and a model built afterwards must hold the new matrix. "
         "Non-trivial: N > n_train, >=1 test row, train indices not sorted-prefix; distinct = case hash.")
+RULE += (' 25% of the files live under dotted directory/file names; get_distances (plain + normalised) is judged for the file-backed model too; one designed 2100-sample model per run (offset 1e4, unit spread) whose get_distances is compared exactly on 40000 sampled ordered pairs.')
 ASSUMPTIONS = [
     "KNN-supervised is outside the statement (it demands an n_train x n_train matrix)",
     "semi-supervised layouts are those its API can express: unlabeled row i is dataset row L+i, labeled indices lie outside [L, L+U)",
